@@ -107,6 +107,11 @@ class L2BallIndicator(Functional):
         of the :math:`\ell_2` ball with radius :math:`r`
 
         .. math::
-            \mathrm{prox}_{\lambda I}(\mb{v}) = r \frac{\mb{v}}{\norm{\mb{v}}_2}\;.
+            \mathrm{prox}_{\lambda I}(\mb{v}) = \begin{cases}
+            \mb{v} & \text{ if } \norm{\mb{v}}_2 \leq r \\
+            r \frac{\mb{v}}{\norm{\mb{v}}_2} & \text{ otherwise} \;.
+            \end{cases}
         """
-        return self.radius * v / norm(v)
+        nrm = norm(v)
+        # Projection onto the ball: points inside the ball (including zero) are unchanged
+        return snp.where(nrm <= self.radius, 1.0, self.radius / snp.where(nrm > 0, nrm, 1.0)) * v
